@@ -447,6 +447,11 @@ where
         self.handle_disseminator_shred(shred).await
     }
 
+    /// Calls the private handler of a message received from the all-to-all network exactly once.
+    pub async fn verif_handle_all2all_message(&self, msg: ConsensusMessage) {
+        self.handle_all2all_message(msg).await
+    }
+
     /// The node's blockstore handle.
     pub fn verif_blockstore(&self) -> SharedBlockstore {
         self.blockstore.clone()
